@@ -13,7 +13,7 @@ from mc.run import Stats, explore
 ASSUME = [
     "scenario-specific attributes generated: effort, start, end (the ones the statement names); a scenario inherits the overrides of its ancestor scenarios",
     "efforts stay small against the horizon, so the horizon extension (computed from the first scenario only) is not what is tested",
-    "project 2025-01-06 +3w, default calendar, 1 h resolution (thorough adds 30 min)",
+    "project 2025-01-06 +3w, default calendar, 1 h resolution (thorough adds 30 min); bases: chains, limits on resource / group / task / container, team, alternative, dated container, and task-level ALAP anchors (own end / container deadline) behind forward-declared predecessors",
 ]
 TREES = {
     "T1": [("plan", [])],
@@ -54,6 +54,14 @@ def bases(tier):
             out.append({"L": L, "alap": alap, "resources": rs,
                         "tasks": [T("w", 200), {"id": "g", **({"end": "2025-01-20-17:00"} if alap else {"start": "2025-01-09-09:00"}),
                                                 "children": [T("x", 90, deps=["w"]), T("y", 120, "r2", deps=["!x"])]}]})
+            if not alap:
+                # task-level backward scheduling inside a forward project: an ALAP anchor (own end) whose predecessors are not
+                # declared alap themselves (the scheduler marks them backward, once per scenario)
+                out.append({"L": L, "alap": False, "resources": rs,
+                            "tasks": [T("a", 90), T("b", 150, deps=["a"]), T("z", 60, deps=["b"], sched="alap", end="2025-01-16-17:00"), T("c", 120, "r2")]})
+                out.append({"L": L, "alap": False, "resources": rs,
+                            "tasks": [T("a", 90, prec=["z"]), T("b", 150, "r2", prec=["z"]),
+                                      {"id": "g", "end": "2025-01-17-12:00", "children": [T("z", 60, sched="alap"), T("y", 30, "r2", sched="alap")]}]})
             if tier == "thorough":
                 out.append({"L": L, "alap": alap, "resources": [{"id": "r1", "eff": 0.7}, {"id": "r2"}],
                             "tasks": [T("a", 50), T("b", 20, deps=["a"]), T("c", 45, deps=["b"]), T("d", 30)]})
